@@ -9,12 +9,18 @@ import (
 
 func buildLineFilter(stage *logql.LineFilter) (Processor, error) {
 	if stage.IP {
-		matcher, err := buildIPMatcher(stage.Op, stage.Value)
+		// A negated filter keeps the line if NO address in it matches,
+		// so always look for a positive match and negate the result.
+		op, negate := stage.Op, false
+		if op == logql.OpNotEq {
+			op, negate = logql.OpEq, true
+		}
+		matcher, err := buildIPMatcher(op, stage.Value)
 		if err != nil {
 			return nil, err
 		}
 
-		return &IPLineFilter{matcher: matcher}, nil
+		return &IPLineFilter{matcher: matcher, negate: negate}, nil
 	}
 
 	matcher, err := buildStringMatcher(stage.Op, stage.Value, stage.Re, false)
@@ -39,6 +45,7 @@ func (lf *LineFilter) Process(_ otelstorage.Timestamp, line string, _ LabelSet) 
 // IPLineFilter looks for IP address in a line and applies matcher to it.
 type IPLineFilter struct {
 	matcher IPMatcher
+	negate  bool
 }
 
 // Process implements Processor.
@@ -55,7 +62,7 @@ func (lf *IPLineFilter) Process(_ otelstorage.Timestamp, line string, _ LabelSet
 
 			ip, err := netip.ParseAddr(capture)
 			if err == nil && lf.matcher.Match(ip) {
-				return line, true
+				return line, !lf.negate
 			}
 			continue
 		}
@@ -64,14 +71,14 @@ func (lf *IPLineFilter) Process(_ otelstorage.Timestamp, line string, _ LabelSet
 
 			ip, err := netip.ParseAddr(capture)
 			if err == nil && lf.matcher.Match(ip) {
-				return line, true
+				return line, !lf.negate
 			}
 			continue
 		}
 		i++
 	}
 
-	return line, false
+	return line, lf.negate
 }
 
 func tryCaptureIPv4(s string) (string, bool) {
